@@ -1,0 +1,88 @@
+// Copyright The gittuf Authors
+// SPDX-License-Identifier: Apache-2.0
+
+//go:build verif
+
+// gvc contracts (comment-only, read under the "verif" build tag).
+
+package gitinterface
+
+//@ # ---- C10: changed paths reach the file rules verbatim ----
+//@ # A-git (assumed contract of the git binary): run with -z, `git diff-tree --no-commit-id --name-only -r -z A B`
+//@ # and `git ls-tree --name-only -r -z C` print every path exactly as recorded in the tree, each terminated by a NUL
+//@ # byte. Without -z git quotes and escapes unusual names: that output has no contract here, so a body that uses it
+//@ # cannot meet the postcondition (this is how defect D7 showed up; fixed).
+//@ spec diffNamesZ(a string, b string) string
+//@ spec lsNamesZ(c string) string
+//@ define isDiffNamesZ(args []string) bool = len(args) == 7 && args[0] == "diff-tree" && args[1] == "--no-commit-id" && args[2] == "--name-only" && args[3] == "-r" && args[4] == "-z"
+//@ define isLsNamesZ(args []string) bool = len(args) == 5 && args[0] == "ls-tree" && args[1] == "--name-only" && args[2] == "-r" && args[3] == "-z"
+//@ # the records of a NUL-terminated list, in terms of the Go string functions that take it apart
+//@ define zBody(s string) string = strings.TrimSuffix(s, "\x00")
+//@ define zLen(s string) int = ite(zBody(s) == "", 0, splitN(zBody(s), "\x00"))
+//@ define zAt(s string, i int) string = splitAt(zBody(s), "\x00", i)
+//@ func (*Repository).executor -> (e)
+//@   trusted
+//@   assigns fresh(executor.*)
+//@   ensures e != nil && fresh(e) && e.r == r && e.args == args
+//@ func (*executor).executeString -> (out, err)
+//@   trusted
+//@   pure
+//@   requires e != nil
+//@   ensures err == nil && isDiffNamesZ(e.args) ==> out == diffNamesZ(e.args[5], e.args[6])
+//@   ensures err == nil && isLsNamesZ(e.args) ==> out == lsNamesZ(e.args[4])
+//@ func (*Repository).ensureIsCommit -> (err)
+//@   trusted
+//@   pure
+//@ func (*Repository).GetCommitParentIDs -> (ps, err)
+//@   trusted
+//@   assigns fresh(elems Hash)
+//@   ensures err == nil ==> forall i :: 0 <= i && i < len(ps) ==> len(ps[i]) > 0
+
+//@ define pathsAreZ(ps []string, out string) bool = len(ps) == zLen(out) && (forall i :: 0 <= i && i < len(ps) ==> ps[i] == zAt(out, i))
+//@ func [C10] splitNULTerminatedPaths -> (ps)
+//@   assigns fresh(elems string)
+//@   ensures records: pathsAreZ(ps, output)
+//@ func [C10] (*Repository).GetFilePathsChangedByCommit -> (ps, err)
+//@   requires r != nil
+//@   assigns fresh(executor.*), fresh(elems string), fresh(elems Hash), fresh(map map[string]bool)
+//@   # a commit with one parent: exactly the paths git lists (verbatim, -z) as differing from that parent
+//@   ensures [C10] oneParentVerbatim: err == nil && len(parentCommitIDs) == 1 ==> pathsAreZ(ps, diffNamesZ(commitID.String() + "~1", commitID.String()))
+//@   # a root commit: exactly the paths of its tree
+//@   ensures [C10] rootVerbatim: err == nil && len(parentCommitIDs) == 0 ==> pathsAreZ(ps, lsNamesZ(commitID.String()))
+//@   loop 1:
+//@     cut
+//@   loop 2:
+//@     cut
+//@   loop 3:
+//@     cut
+
+//@ # ---- C18: the repository operations propagation is built from (assumed contracts over a ghost model of two
+//@ # repositories: reference tables are versioned by a global epoch that every mutating operation advances; trees and
+//@ # commits are content addressed, so their structure is a function of the id alone) ----
+//@ ghost repoEpoch int
+//@ spec rRef(r *Repository, epoch int, ref string) Hash
+//@ spec treeHasPath(tree Hash, path string) bool
+//@ spec treePathID(tree Hash, path string) Hash
+//@ func (*Repository).GetReference -> (h, err)
+//@   trusted
+//@   pure
+//@   ensures err == nil ==> h == rRef(r, repoEpoch, refName) && !h.IsZero()
+//@   ensures err != nil ==> len(h) == 0
+//@ func (*Repository).GetCommitTreeID -> (t, err)
+//@   trusted
+//@   pure
+//@   ensures err == nil ==> t == ctree(commitID)
+//@ func (*Repository).GetPathIDInTree -> (id, err)
+//@   trusted
+//@   pure
+//@   ensures err == nil ==> treeHasPath(treeID, treePath) && id == treePathID(treeID, treePath) && !id.IsZero()
+//@   ensures errIs(err, ErrTreeDoesNotHavePath) ==> !treeHasPath(treeID, treePath)
+//@   ensures err != nil ==> len(id) == 0
+//@ # what lands at the local path is exactly the upstream tree (or its sub-path); every other path keeps its content
+//@ # (the tree surgery itself - GetAllFilesInTree / TreeBuilder - is assumed, not under contract)
+//@ define upstreamContent(upstreamCommit Hash, upstreamPath string) Hash = ite(upstreamPath == "", ctree(upstreamCommit), treePathID(ctree(upstreamCommit), upstreamPath))
+//@ func (*Repository).CreateSubtreeFromUpstreamRepository -> (c, err)
+//@   trusted
+//@   assigns ghost repoEpoch
+//@   ensures err != nil ==> repoEpoch == old(repoEpoch)
+//@   ensures err == nil ==> repoEpoch == old(repoEpoch) + 1 && c == rRef(r, repoEpoch, localRef) && !c.IsZero() && treeHasPath(ctree(c), localPath) && treePathID(ctree(c), localPath) == upstreamContent(upstreamCommitID, upstreamPath)
